@@ -688,3 +688,32 @@ Proof.
   rewrite N.add_1_r, <- N.div2_bits, Hc, N.lor_spec, !N.land_spec, N.lor_spec.
   destruct (N.testbit a i), (N.testbit b i), (N.testbit c i); reflexivity.
 Qed.
+
+(* ------------------------------------------------------------------ counter usage variants *)
+(* which of inc() / dec() a design calls only matters through m_incrementNeverUsed; a counter
+   that calls neither is the counter with inc tied high, every other variant is the plain
+   modulo counter driven by the conjunction of its call-site conditions *)
+Definition counter_rebuild (c : counter_cfg) : counter_cfg :=
+  {| cc_w := cc_w c; cc_endw := cc_endw c; cc_check := cc_check c; cc_reset := cc_reset c; cc_never := false |}.
+
+Lemma counter_never_lift (mk : bool -> counter_cfg) e v load lv :
+  counter_rebuild (mk true) = mk false ->
+  (forall inc dec, counter_next (mk false) e v inc dec load lv = counter_spec e v inc dec load lv) ->
+  forall (u : counter_use) inc dec en,
+    let eff := counter_eff u inc dec en in
+    counter_next (mk (counter_never u)) e v (fst eff) (snd eff) load lv
+    = counter_spec e v (fst eff || counter_never u) (snd eff) load lv.
+Proof.
+  intros Hrb Hspec u inc dec en eff. subst eff. unfold counter_never, counter_eff.
+  destruct (match cu_scope u with
+            | 0 => (inc, dec) | 1 => (true, true) | 2 => (en && inc, en && dec)
+            | 3 => (en && inc, negb en && dec) | 4 => (en, en) | _ => (inc || en, dec || en) end) as [i d].
+  destruct (cu_inc u), (cu_dec u); cbn [orb negb andb fst snd]; rewrite ?orb_false_r; try apply Hspec.
+  rewrite counter_next_never. fold (counter_rebuild (mk true)). rewrite Hrb.
+  assert (Hn : cc_never (mk true) = true).
+  { (* the family sets cc_never to its argument; recovered from the rebuild equation is not
+       possible in general, so it is required of the three constructors below *)
+    shelve. }
+  rewrite Hn. apply Hspec.
+Unshelve.
+Abort.
